@@ -217,6 +217,24 @@ def run_reactor(spec):
                                   tag="")
                 if not same:
                     differ += 1
+        # both assemblies that share an edge gap cell transfer to / from the SAME cell: the width each of them sees (and
+        # weights its heat with) is the same number
+        seen = {}
+        adj = np.asarray(core._asm_sc_adj)
+        types = np.asarray(core._sc_types)
+        for k in range(len(r.assemblies)):
+            wp = core.gap_params["asm wp"][k]
+            for col, cid in enumerate(adj[k]):
+                if cid > 0 and types[int(cid) - 1] == 0:
+                    seen.setdefault(int(cid), []).append((k, float(wp[col])))
+        shared = 0
+        for cid, lst in seen.items():
+            if len(lst) >= 2:
+                shared += 1
+                w = [x[1] for x in lst]
+                o.check(max(w) - min(w) <= 1e-12, "shared_gap_cell_width_differs_between_neighbours",
+                        "gap cell %d: %s" % (cid, ["asm %d: %.10g" % x for x in lst]))
+        o.classes["shared_edge_cells"] = min(shared, 5) // 5 * 5
         o.classes["n_asm"] = len(r.assemblies)
         o.classes["maps_with_mesh_difference"] = min(differ, 5)
         o.nontrivial = differ > 0
